@@ -47,6 +47,8 @@ type Scenario struct {
 	Tasks    []Task `json:"tasks"`
 	// SeqOps (mode seq): push / pull / close / reset, executed by one goroutine.
 	SeqOps []Op `json:"seq_ops,omitempty"`
+	// CapSpec (mode cap): the queue behind the library's media entry points, see cap.go.
+	CapSpec *CapSpec `json:"cap_spec,omitempty"`
 	// NoYield lists site names that do not park in this run (minimisation).
 	NoYield []string `json:"no_yield,omitempty"`
 }
@@ -62,8 +64,11 @@ func gen(seed uint64, tier string) Scenario {
 	caps := []int{1, 1, 2, 2, 4, 4, 8, 16, 32, 64, 128, 256}
 	sc.Cap = caps[r.Intn(len(caps))]
 	// a tenth of the runs: the sequential case (hash-derived so that no other choice moves)
-	if core.HS(seed, "c16.seq", "", 0)%100 < 10 {
+	switch x := core.HS(seed, "c16.seq", "", 0) % 100; {
+	case x < 10:
 		return genSeq(seed, sc.Cap)
+	case x < 18:
+		return genCap(seed)
 	}
 	// Concurrency and history length are balanced so that the linearizability
 	// check stays tractable (concurrent unresolved pushes multiply FIFO states).
@@ -827,6 +832,9 @@ func configChecks() *core.Violation {
 }
 
 func run(t *testing.T, sc Scenario) *core.Result {
+	if sc.Mode == "cap" && sc.CapSpec != nil {
+		return runCap(t, sc)
+	}
 	res := core.NewResult()
 	sub := sc.Sub
 	if sub <= 0 {
@@ -929,6 +937,23 @@ func shrink(sc Scenario) []Scenario {
 		c.NoYield = append([]string(nil), sc.NoYield...)
 		return c
 	}
+	if sc.Mode == "cap" {
+		if sc.CapSpec != nil && sc.CapSpec.Transport != "tcp" {
+			c := clone()
+			cs := *sc.CapSpec
+			cs.Transport = "tcp"
+			c.CapSpec = &cs
+			out = append(out, c)
+		}
+		if sc.CapSpec != nil && sc.CapSpec.Extra > 1 {
+			c := clone()
+			cs := *sc.CapSpec
+			cs.Extra = 1
+			c.CapSpec = &cs
+			out = append(out, c)
+		}
+		return out
+	}
 	if sc.Mode == "seq" {
 		// drop the second half, then single operations
 		n := len(sc.SeqOps)
@@ -1004,10 +1029,10 @@ func shrink(sc Scenario) []Scenario {
 
 func init() {
 	f := core.Register("C16", gen, run, shrink)
-	f.Real = []string{"pkg/ringbuffer.RingBuffer", "internal/asyncprocessor.Processor (through a verif-tagged type alias)", "sync.Mutex / sync.Cond of the Go runtime"}
+	f.Real = []string{"pkg/ringbuffer.RingBuffer", "internal/asyncprocessor.Processor (through a verif-tagged type alias)", "sync.Mutex / sync.Cond of the Go runtime", "mode cap: gortsplib.Client, Server, ServerStream, ServerSession (the queue as configured behind Client.WritePacketRTP while recording / on a back channel while playing and behind ServerStream.WritePacketRTP)"}
 	f.Simulated = []string{"goroutine interleaving: every goroutine parks at every lock acquisition, unlock->broadcast gap, processor step and task operation; the scheduler releases exactly one per step, chosen by H(seed, step)"}
 	f.Excluded = []string{"RingBuffer.Reset in the concurrent modes (sequential mode only)", "capacity 0", "Push between Close and Reset (the statement is silent about it)"}
-	f.Rule = "scenario = capacity (power of two 1..256) x 1..8 producer scripts x owner/consumer/closer scripts x optional failing item; each scenario is run under 16 schedule seeds in one bubble; a tenth of the scenarios are the sequential case instead: one caller, phases filling the ring to a seeded level (often exactly the capacity, one below, one above), draining, Close, Pull after Close, Reset, compared operation by operation with a reference FIFO; a run is non-trivial when >= 2 tasks and >= 4 scheduling decisions; distinct = distinct hash of the sequence of (task, site) scheduling decisions"
+	f.Rule = "scenario = capacity (power of two 1..256) x 1..8 producer scripts x owner/consumer/closer scripts x optional failing item; each scenario is run under 16 schedule seeds in one bubble; a tenth of the scenarios are the sequential case instead: one caller, phases filling the ring to a seeded level (often exactly the capacity, one below, one above), draining, Close, Pull after Close, Reset, compared operation by operation with a reference FIFO; 8% are the capacity workload of cap.go (real client and server, WriteQueueSize 8..512, a burst of capacity+1..6 writes into the idle queue of each media entry point over tcp/udp: none may be refused before WriteQueueSize were accepted); a run is non-trivial when >= 2 tasks and >= 4 scheduling decisions; distinct = distinct hash of the sequence of (task, site) scheduling decisions"
 	f.Assumptions = []string{
 		"interleavings are explored at the granularity of the inserted yield sites (all lock acquisitions and unlock->broadcast gaps of ringbuffer, all steps of asyncprocessor); code between two sites runs atomically with respect to the other controlled goroutines",
 		"Start and Close are issued by one owner task, as the library does (the processor's running flag is not synchronised)",
